@@ -37,7 +37,7 @@ CHECKS = {
                      "panics are out of scope here (C08)"],
     ),
     "C11": dict(
-        packs=["c11"], level="other",
+        packs=["c11", "c12_o0"], level="other",
         explanation="Structural necessary conditions of the raw load/store round trip, decided on the MIR of all 7 LoadStore impls and the raw iterator: "
                     "R11.1 type-parameter dependence (store depends on the data order iff load does - exact by parametricity), R11.2 endianness pairing per "
                     "branch of IS_ALTERNATE_ORDER incl. the RawU24 sub-range, R11.3 size_hint = (8/bpp)*len saturating-minus index for all 7 widths, "
@@ -49,7 +49,7 @@ CHECKS = {
         assumptions=["usize is 64 bit on the analysis host"],
     ),
     "C10": dict(
-        packs=["c10"], level="other",
+        packs=["c10", "c12_o0"], level="other",
         explanation="Structural necessary conditions of framebuffer read-after-write, decided on the MIR of all set_pixel impls, as_image, pixel, BUFFER_SIZE and CHECK_N: "
                     "R10.1 the writer depends on the data order iff the reader's load does (parametricity), R10.2 endianness / documented bit position pairing, "
                     "R10.3 every path of set_pixel that stores has established 0<=x<WIDTH and 0<=y<HEIGHT and every path that does not store has established the negation of one of them (writes exactly inside), the stored byte of sub-byte depths is a read-modify-write of the same byte with mask 2^bpp-1, R10.6 the byte index has the padded-row layout ImageRaw reads, "
